@@ -95,18 +95,6 @@ pub proof fn lemma_bit_mod(x: nat, b: nat, j: nat)
 
 // ASSUMED operator contracts, stated per bit (label A): `<<` by usize (forward_shift: forwards to wrapping_shl; shifts: wrapping_shl is
 // value * 2^n mod 2^BITS) and `|`, `|=` (bits: every bit of the result of |= is the or of the operand bits; the other shapes forward)
-impl<const BITS: usize, const LIMBS: usize> ShlSpecImpl<usize> for Uint<BITS, LIMBS> {
-    open spec fn obeys_shl_spec() -> bool { false }
-    open spec fn shl_req(self, rhs: usize) -> bool { self.wf() }
-    open spec fn shl_spec(self, rhs: usize) -> Uint<BITS, LIMBS> { self }
-}
-impl<const BITS: usize, const LIMBS: usize> core::ops::Shl<usize> for Uint<BITS, LIMBS> {
-    type Output = Uint<BITS, LIMBS>;
-    #[verifier::external_body]
-    fn shl(self, rhs: usize) -> (r: Uint<BITS, LIMBS>)
-        ensures r.wf(), r.val() == (self.val() * pow2(rhs as nat)) % pow2(BITS as nat)
-    { unimplemented!() }
-}
 impl<const BITS: usize, const LIMBS: usize> BitOrSpecImpl<Uint<BITS, LIMBS>> for Uint<BITS, LIMBS> {
     open spec fn obeys_bitor_spec() -> bool { false }
     open spec fn bitor_req(self, rhs: Uint<BITS, LIMBS>) -> bool { self.wf() && rhs.wf() }
